@@ -38,7 +38,7 @@ RULE = (
     "rename, remove) as crash point, second run on the snapshot; L3: offset-table states and crash points on a 100,001-line file; L4: bundled "
     "document sets: document x archive x format x sizes; L5: external decompressor tools as environment {ok, dies midway, dies inside the "
     "last line, fails immediately} x format x sizes x archive; a failed L1 run is followed by a second run on what it left behind; L6: a whole challenge over three corpora (which ones it uses x "
-    "preparation tasks collected first, as the driver does, or run one at a time x formats) through DefaultTrackPreparator; L7: a declared uncompressed size that the intact archive does not decompress to (+-12 bytes) x format x document x online/offline: explicit error within the I/O-step horizon. "
+    "preparation tasks collected first, as the driver does, or run one at a time x formats) through DefaultTrackPreparator; L7: a declared uncompressed size that the intact archive does not decompress to (+-12 bytes) x format x document x online/offline: explicit error within the I/O-step horizon; L8: --track-path mode, a corpus of three document sets, every placement of each (bundled plain, bundled archive, to be downloaded). "
     "non-trivial = a fault, a crash or a non-empty initial state; distinct = the configuration"
 )
 ASSUMPTIONS = [
@@ -853,6 +853,97 @@ def l6_check(case, res):
                       {"layer": 6, "case": [list(used), consume, list(fmts)]})
 
 
+# ------------------------------------------------------------------------------------------------ L8 several document sets, --track-path
+
+
+def l8_cases():
+    """one corpus with three document sets in simple track mode (--track-path: the track directory is tried first, then the data cache): every
+    placement of every set -- bundled as plain file, bundled as archive only, not bundled (to be downloaded)"""
+    for placement in itertools.product(("plain", "archive", "remote"), repeat=3):
+        yield (placement, "gz")
+    yield (("archive", "archive", "archive"), "bz2")
+    yield (("plain", "remote", "archive"), "zst")
+
+
+def l8_check(case, res):
+    setup()
+    from esrally import config
+    from esrally.track import loader, track
+    from esrally.utils import net
+
+    placement, fmt = case
+    root = new_root()
+    tdir = os.path.join(root, "mytrack")
+    cache = os.path.join(root, "cache")
+    os.makedirs(tdir)
+    os.makedirs(cache)
+    open(os.path.join(tdir, "track.json"), "w").write("{}")
+    bodies = [DOC, b"".join(b'{"id": %d, "set": "second"}\n' % i for i in range(7)), b'{"id": 0, "s": 3}\n' * 3]
+    sets, published = [], {}
+    for i, body in enumerate(bodies):
+        arch = compress(fmt, body, name=f"docs-{i}.json")
+        fname = f"docs-{i}.json"
+        published[f"{fname}.{fmt}"] = arch
+        sets.append(track.Documents(track.Documents.SOURCE_FORMAT_BULK, document_file=fname, document_archive=f"{fname}.{fmt}",
+                                    base_url="http://example.org/corpora", number_of_documents=body.count(b"\n"),
+                                    compressed_size_in_bytes=len(arch), uncompressed_size_in_bytes=len(body), target_index="idx"))
+        if placement[i] == "plain":
+            open(os.path.join(tdir, fname), "wb").write(body)
+        elif placement[i] == "archive":
+            open(os.path.join(tdir, f"{fname}.{fmt}"), "wb").write(arch)
+    corpus = track.DocumentCorpus("c1", sets)
+    trk = track.Track(name="mytrack", corpora=[corpus], challenges=[track.Challenge("c", default=True, schedule=[
+        track.Task("bulk", track.Operation("bulk", "bulk", params={"bulk-size": 2}))])])
+    cfg = config.Config()
+    cfg.add(config.Scope.application, "benchmarks", "local.dataset.cache", cache)
+    cfg.add(config.Scope.application, "track", "test.mode.enabled", False)
+    cfg.add(config.Scope.application, "track", "track.path", tdir)
+
+    class ByName:
+        def __init__(self):
+            self.requests = []
+
+        def __call__(self, method, url, **kw):
+            self.requests.append(url)
+            if len(self.requests) > 60:
+                raise RuntimeError("download loop does not terminate")
+            return FakeResponse("ok", published[url.rsplit("/", 1)[1]])
+
+    ep = ByName()
+    net._request = ep
+    v = None
+    CLOCK.start()
+    try:
+        tp = loader.DefaultTrackPreparator()
+        tp.cfg, tp.downloader, tp.decompressor = cfg, loader.Downloader(False, test_mode=False), loader.Decompressor()
+        try:
+            for f, params in list(tp.on_prepare_track(trk, cache)):
+                f(**params)
+        except Exception as e:  # noqa
+            v = ("healthy-preparation-fails", f"{type(e).__name__}: {str(e)[:200]}")
+    finally:
+        CLOCK.stop()
+    if v is None:
+        for i, ds in enumerate(sets):
+            where = tdir if placement[i] != "remote" else os.path.join(cache, "c1")
+            g = good_state(where, ds, bodies[i])
+            if g:
+                v = (f"document-set-not-prepared-{g[0]}", f"document set {i} ({placement[i]}) of a corpus with sets placed {list(placement)}: {g[1]}")
+                break
+        want_requests = sum(1 for p_ in placement if p_ == "remote")
+        if v is None and len(ep.requests) != want_requests:
+            v = ("downloads", f"{len(ep.requests)} download requests, {want_requests} document sets are not bundled with the track")
+    shutil.rmtree(root, ignore_errors=True)
+    res.case(
+        case_repr={"layer": "L8", "placement_of_the_three_document_sets": list(placement), "format": fmt, "requests": len(ep.requests)} if res.sample_now(5) else None,
+        nontrivial_key=("L8", case),
+        outcome_key=("L8", len(ep.requests), v[0] if v else "ok"),
+    )
+    if v:
+        res.violation(f"prepare:{v[0]}:track-path", f"--track-path corpus with document sets placed {list(placement)} ({fmt}): {v[1]}",
+                      {"layer": 8, "case": [list(placement), fmt]})
+
+
 # ------------------------------------------------------------------------------------------------ L7 mistyped sizes
 
 
@@ -914,6 +1005,8 @@ def _job(arg):
             l6_check(it, res)
         elif layer == 7:
             l7_check(it, res)
+        elif layer == 8:
+            l8_check(it, res)
         else:
             l3_check(it, res)
     return res
@@ -927,6 +1020,7 @@ def run(tier, seed):
     jobs = [(1, ch) for ch in par.chunks(l1, par.NPROC * 4)] + [(2, [c]) for c in l2] + [(3, [s]) for s in l3] + [(4, ch) for ch in par.chunks(l4, 8)] + [(5, ch) for ch in par.chunks(list(l5_cases()), 8)]
     jobs += [(6, ch) for ch in par.chunks(list(l6_cases()), 8)]
     jobs += [(7, ch) for ch in par.chunks(list(l7_cases()), 8)]
+    jobs += [(8, ch) for ch in par.chunks(list(l8_cases()), 8)]
     res = par.pmap(_job, jobs, seed=seed)
     res.extra["L1_cases"] = len(l1)
     res.extra["L2_histories"] = len(l2)
@@ -951,6 +1045,8 @@ def replay(data):
         l5_check(tuple(data["case"]), res)
     elif data["layer"] == 7:
         l7_check(tuple(data["case"]), res)
+    elif data["layer"] == 8:
+        l8_check((tuple(data["case"][0]), data["case"][1]), res)
     elif data["layer"] == 6:
         c = data["case"]
         l6_check((tuple(c[0]), c[1], tuple(c[2])), res)
